@@ -145,9 +145,36 @@ def prove(prop: str, tier: str) -> ProofReport:
                     rep.forbidden.append(f"{m}:{k}: {line.strip()[:120]}")
         # axioms
         audit = LEAN / ".lake" / f"Audit_{prop}.lean"
-        audit.write_text("".join(f"import {m_}\n" for m_ in mods) + "".join(f"#print axioms {t}\n" for t in rep.theorems))
-        a = _lake(["env", "lean", str(audit)])
-        out = a.stdout + a.stderr
+        audit_src = "".join(f"import {m_}\n" for m_ in mods) + "".join(f"#print axioms {t}\n" for t in rep.theorems)
+        audit.write_text(audit_src)
+        # `#print axioms` is a function of the compiled modules: when none of the .olean files of the import closure (and
+        # nothing in the audit file) changed since the last audit of this property, its output is reused. (Loading the
+        # Mathlib part of the closure costs tens of seconds when the page cache is cold.)
+        import hashlib
+        h = hashlib.sha256(audit_src.encode())
+        for m in sorted(closure):
+            ol = LEAN / ".lake" / "build" / "lib" / "lean" / (m.replace(".", "/") + ".olean")
+            h.update(m.encode())
+            h.update(ol.read_bytes() if ol.exists() else b"<missing>")
+        key = h.hexdigest()
+        cache = LEAN / ".lake" / f"Audit_{prop}.cache.json"
+        out = None
+        if os.environ.get("VERIF_AUDIT_CACHE", "1") == "1" and tier != "thorough" and cache.exists():
+            try:
+                cj = json.loads(cache.read_text())
+                if cj.get("key") == key:
+                    out = cj["out"]
+            except Exception:
+                out = None
+
+        class _A:
+            returncode = 0
+        a = _A()
+        if out is None:
+            a = _lake(["env", "lean", str(audit)])
+            out = a.stdout + a.stderr
+            if a.returncode == 0:
+                cache.write_text(json.dumps({"key": key, "out": out}))
         if a.returncode != 0:
             rep.log += "\nAUDIT FAILED:\n" + out[-3000:]
             rep.dirty["<audit>"] = ["audit file does not elaborate"]
